@@ -1,9 +1,15 @@
 #!/venv/bin/python
-"""C17 correspondence: real HttpxTransport / auth plug-ins vs the Lean model M-http.
+"""C17 — transport applies defaults, per-request headers and auth: correspondence + direct oracle.
 
-For every configuration the REAL classes are driven (httpx.MockTransport behind the transport's
-AsyncClient, `t._client.request` wrapped to record the keyword arguments that reach httpx) and the
-compiled Lean driver is asked the same question.  Compared:
+Importable module (nothing happens at import time; `pyopenapi_gen` and `httpx` are imported inside functions).
+
+    run(seed, scale, driver) -> dict     real HttpxTransport / auth plug-ins vs the Lean model M-http
+    oracle(seed, scale)      -> dict     C17's statement evaluated directly on the real transport
+    replay(case)             -> bool     re-run one oracle case; True iff it still violates the property
+
+run():  for every configuration the REAL classes are driven (httpx.MockTransport behind the transport's
+AsyncClient, `t._client.request` wrapped to record the keyword arguments that reach httpx) and the compiled Lean
+driver is asked the same question (batched).  Compared:
   * the headers dict handed to httpx, as ordered (key, value) pairs;
   * the `params` / `cookies` / other keyword arguments handed to httpx;
   * exceptions (type and message);
@@ -11,27 +17,25 @@ compiled Lean driver is asked the same question.  Compared:
   * the wire view: `request.headers.get_list(name)` of the request httpx built vs `wireLookup`;
   * the plug-ins alone on request_args with/without "headers"/"params"/"cookies" keys.
 Assumption shared with the model: the plug-in objects inside a composite are distinct objects.
+
+oracle(): defect classes expected on the unchanged tree (Lean `_counterexample` theorems exist for them):
+  header-case-variant-not-overridden   Pog.C17.header_precedence_counterexample(_auth)
+  apikey-query-dropped                 Pog.C17.apikey_query_cookie_dropped_counterexample / _in_composite
+  apikey-cookie-dropped                idem
+Classes that must stay empty: header-last-writer-wrong, apikey-header-missing, apikey-bad-location-no-error,
+  passthrough-changed, unexpected-exception.
 """
 from __future__ import annotations
 
 import asyncio
+import itertools
 import json
 import random
 import subprocess
 import sys
 import warnings
-from pathlib import Path
 
-import httpx
-
-from pyopenapi_gen.core.auth.base import CompositeAuth
-from pyopenapi_gen.core.auth.plugins import ApiKeyAuth, BearerAuth, HeadersAuth, OAuth2Auth
-from pyopenapi_gen.core.http_transport import HttpxTransport
-
-HERE = Path(__file__).resolve().parent
-DRIVER = HERE / ".lake" / "build" / "bin" / "driver"
-N_RANDOM = int(sys.argv[1]) if len(sys.argv) > 1 else 2500
-SEED = 17
+DEFAULT_DRIVER = "/verif/lean/.lake/build/bin/driver"
 
 NAMES = ["X-B", "x-b", "X-b", "Authorization", "authorization", "AUTHORIZATION", "X-API-Key", "x-api-key",
          "X-Trace", "Accept-Language"]
@@ -41,24 +45,38 @@ LOCATIONS = ["header", "query", "cookie", "header", "query", "cookie", "Header",
 PNAMES = ["q", "api_key", "X-API-Key", "page", "sid"]
 
 
-def drive(reqs: list[dict]) -> list:
+def _impl():
+    """The classes under test — imported late so the harness can point sys.path at another checkout first."""
+    import httpx
+    from pyopenapi_gen.core.auth.base import CompositeAuth
+    from pyopenapi_gen.core.auth.plugins import ApiKeyAuth, BearerAuth, HeadersAuth, OAuth2Auth
+    from pyopenapi_gen.core.http_transport import HttpxTransport
+
+    return httpx, HttpxTransport, CompositeAuth, BearerAuth, HeadersAuth, ApiKeyAuth, OAuth2Auth
+
+
+def drive(driver: str, reqs: list[dict]) -> list:
+    """One batch through the compiled Lean driver (it answers at EOF)."""
+    if not reqs:
+        return []
     inp = "".join(json.dumps(r) + "\n" for r in reqs)
-    p = subprocess.run([str(DRIVER)], input=inp, capture_output=True, text=True, timeout=600)
+    p = subprocess.run([str(driver)], input=inp, capture_output=True, text=True, timeout=600)
     lines = p.stdout.splitlines()
-    assert len(lines) == len(reqs), (len(lines), len(reqs), p.stderr[-2000:])
+    if len(lines) != len(reqs):
+        raise RuntimeError(f"driver answered {len(lines)} of {len(reqs)} requests: {p.stderr[-2000:]}")
     return [json.loads(x) for x in lines]
 
 
-# ---------------------------------------------------------------- random configurations
+# ---------------------------------------------------------------- configurations (correspondence)
 
-def rnd_pairs(rng: random.Random, names, maxn=4, dup=False) -> list[list[str]]:
+def rnd_pairs(rng: random.Random, names, maxn=4, values=VALUES) -> list[list[str]]:
     n = rng.randint(0, maxn)
-    out = []
+    out: list[list[str]] = []
     for _ in range(n):
         k = rng.choice(names)
-        if not dup and any(k == p[0] for p in out):
+        if any(k == p[0] for p in out):
             continue
-        out.append([k, rng.choice(VALUES)])
+        out.append([k, rng.choice(values)])
     return out
 
 
@@ -86,7 +104,6 @@ def rnd_plugin(rng: random.Random, depth: int = 0) -> dict:
 
 def all_orders_cfgs() -> list[dict]:
     """Every subset and order of the five plug-in kinds (one representative each) in one composite."""
-    import itertools
     reps = [
         {"t": "bearer", "token": "tok"},
         {"t": "headers", "headers": [["X-B", "h"], ["authorization", "low"]]},
@@ -159,6 +176,7 @@ def rnd_cfg(rng: random.Random) -> dict:
 # ---------------------------------------------------------------- the real thing
 
 def build_plugin(spec: dict):
+    _, _, CompositeAuth, BearerAuth, HeadersAuth, ApiKeyAuth, OAuth2Auth = _impl()
     t = spec["t"]
     if t == "bearer":
         return BearerAuth(spec["token"])
@@ -186,17 +204,20 @@ def pairs(d):
     return None if d is None else [[k, v] for k, v in d.items()]
 
 
-async def run_real(cfg: dict, n: int = 2) -> tuple[list, list]:
-    """n consecutive requests through one transport: (results as the model reports them, wire lookups)."""
-    auth = build_plugin(cfg["auth"]) if cfg["auth"] is not None else None
-    defaults = None if cfg["defaults"] is None else dict(map(tuple, cfg["defaults"]))
-    # verify_ssl=False only avoids loading the CA bundle 2865 times; the client is replaced below anyway
-    t = HttpxTransport("http://t", auth=auth, bearer_token=cfg["bearer"], default_headers=defaults, verify_ssl=False)
+async def send(cfg: dict, n: int = 1, body=None) -> list[dict]:
+    """n consecutive requests through ONE real transport.  Per request:
+    {"raises","msg"} | {"kw": kwargs that reached httpx, "kw_in": the caller's kwargs, "request": httpx.Request}."""
+    httpx, HttpxTransport = _impl()[:2]
+    auth = build_plugin(cfg["auth"]) if cfg.get("auth") is not None else None
+    defaults = None if cfg.get("defaults") is None else dict(map(tuple, cfg["defaults"]))
+    # verify_ssl=False only avoids loading the CA bundle thousands of times; the client is replaced below anyway
+    t = HttpxTransport("http://t", auth=auth, bearer_token=cfg.get("bearer"), default_headers=defaults,
+                       verify_ssl=False)
     await t._client.aclose()
-    seen_req: list[httpx.Request] = []
+    seen_req: list = []
     seen_kw: list[dict] = []
 
-    def handler(request: httpx.Request) -> httpx.Response:
+    def handler(request):
         seen_req.append(request)
         return httpx.Response(200, text="ok")
 
@@ -208,43 +229,58 @@ async def run_real(cfg: dict, n: int = 2) -> tuple[list, list]:
         return await orig(method, url, **kw)
 
     t._client.request = spy  # type: ignore[method-assign]
-    results, wires = [], []
-    body = {"payload": [1, 2]}
+    out = []
+    body = {"payload": [1, 2]} if body is None else body
+    hmode = cfg.get("hmode", "dict" if cfg.get("headers") is not None else "none")
     for _ in range(n):
         kw: dict = {"json": body}
         caller_headers = None
-        if cfg["hmode"] == "dict":
+        if hmode == "dict":
             caller_headers = dict(map(tuple, cfg["headers"]))
             kw["headers"] = caller_headers
-        elif cfg["hmode"] == "none":
+        elif hmode == "none":
             kw["headers"] = None
-        if cfg["params"] is not None:
+        if cfg.get("params") is not None:
             kw["params"] = dict(map(tuple, cfg["params"]))
-        if cfg["cookies"] is not None:
+        if cfg.get("cookies") is not None:
             kw["cookies"] = dict(map(tuple, cfg["cookies"]))
         snapshot = json.dumps([pairs(caller_headers), pairs(defaults)])
         seen_kw.clear()
         seen_req.clear()
         try:
-            await t.request("GET", "/x", **kw)
+            await t.request("POST", "/x", **kw)
         except ValueError as e:
-            assert not seen_kw
-            results.append({"raises": "ValueError", "msg": str(e)})
-            wires.append(None)
+            out.append({"raises": "ValueError", "msg": str(e), "sent": bool(seen_kw)})
             continue
         assert len(seen_kw) == 1 and len(seen_req) == 1
-        got = seen_kw[0]
+        out.append({"kw": seen_kw[0], "kw_in": kw, "request": seen_req[0],
+                    "mutated": json.dumps([pairs(caller_headers), pairs(defaults)]) != snapshot})
+    await t._client.aclose()
+    return out
+
+
+async def run_real(cfg: dict, n: int = 2) -> tuple[list, list]:
+    """(results in the shape the model reports them, wire lookups per request)."""
+    results, wires = [], []
+    for o in await send(cfg, n):
+        if "raises" in o:
+            res = {"raises": o["raises"], "msg": o["msg"]}
+            if o["sent"]:
+                res["sent_before_raise"] = True
+            results.append(res)
+            wires.append(None)
+            continue
+        got, kw = o["kw"], o["kw_in"]
         extra = sorted(set(got) - {"headers", "params", "cookies", "json"})
         res = {"headers": pairs(got["headers"]), "params": pairs(got.get("params")),
                "cookies": pairs(got.get("cookies"))}
-        if extra or got.get("json") is not body or ("params" in got) != ("params" in kw) \
+        if extra or got.get("json") is not kw["json"] or ("params" in got) != ("params" in kw) \
                 or ("cookies" in got) != ("cookies" in kw):
             res["passthrough_violation"] = [extra, repr(got.get("json"))]
-        if json.dumps([pairs(caller_headers), pairs(defaults)]) != snapshot:
+        if o["mutated"]:
             res["mutated_inputs"] = True
         results.append(res)
-        wires.append({name: seen_req[0].headers.get_list(name) for name in NAMES})
-    await t._client.aclose()
+        wires.append({name: o["request"].headers.get_list(name) for name in NAMES})
     return results, wires
 
 
@@ -265,25 +301,81 @@ def model_cfg(cfg: dict) -> dict:
     return {k: cfg[k] for k in ("defaults", "headers", "auth", "bearer", "params", "cookies")}
 
 
-async def main() -> int:
-    warnings.simplefilter("ignore")
-    rng = random.Random(SEED)
-    cfgs = hand_cfgs() + all_orders_cfgs() + [rnd_cfg(rng) for _ in range(N_RANDOM)]
-    bad = 0
+def plugin_kinds(spec, acc=None) -> set:
+    acc = set() if acc is None else acc
+    if spec is None:
+        return acc
+    if spec["t"] == "apikey":
+        loc = spec["location"]
+        acc.add("apikey-" + (loc if loc in ("header", "query", "cookie") else "badloc"))
+    elif spec["t"] == "oauth2":
+        acc.add("oauth2-refresh" if spec["refresh"] is not None else "oauth2")
+    else:
+        acc.add(spec["t"])
+    for p in spec.get("plugins", []):
+        plugin_kinds(p, acc)
+    return acc
+
+
+# ---------------------------------------------------------------- run(): correspondence
+
+async def _run(seed: int, scale: float, driver: str) -> dict:
+    rng = random.Random(seed)
+    n_random = max(0, int(round(3000 * scale)))
+    n_plugin = max(20, int(round(900 * scale)))
+    hand, orders = hand_cfgs(), all_orders_cfgs()
+    cfgs = hand + orders + [rnd_cfg(rng) for _ in range(n_random)]
+    disagreements: list[dict] = []
+    n_dis = 0
+    comparisons = 0
+    dist: dict[str, int] = {}
+
+    def bump(k, by=1):
+        dist[k] = dist.get(k, 0) + by
+
+    def disagree(label, request, model, impl):
+        nonlocal n_dis
+        n_dis += 1
+        if len(disagreements) < 50:
+            disagreements.append({"label": label, "request": request, "model": model, "impl": impl})
 
     # 1. transport level, two consecutive requests each
     real = [await run_real(c) for c in cfgs]
-    model = drive([{"f": "prepareHeadersSeq", "a": [model_cfg(c), 2]} for c in cfgs])
-    single = drive([{"f": "prepareHeaders", "a": [model_cfg(c)]} for c in cfgs])
+    model = drive(driver, [{"f": "prepareHeadersSeq", "a": [model_cfg(c), 2]} for c in cfgs])
+    single = drive(driver, [{"f": "prepareHeaders", "a": [model_cfg(c)]} for c in cfgs])
     wire_reqs, wire_expect = [], []
-    n_raise = n_second_differs = 0
+    nontrivial_keys = set()
     for c, (r, w), m, s in zip(cfgs, real, model, single):
-        if r != m or s != m[0]:
-            bad += 1
-            print("DISAGREE transport", json.dumps(c), "\n  real ", json.dumps(r), "\n  model", json.dumps(m),
-                  "\n  single", json.dumps(s))
-        n_raise += "raises" in r[0]
-        n_second_differs += r[0] != r[1]
+        comparisons += 3
+        if r != m:
+            disagree("transport (two requests)", model_cfg(c), m, r)
+        if s != m[0]:
+            disagree("prepareHeaders vs prepareHeadersSeq[0]", model_cfg(c), [s, m[0]], r[0])
+        first = r[0]
+        if "raises" in first:
+            bump("raises ValueError")
+        else:
+            if first["headers"]:
+                nontrivial_keys.add(json.dumps(c, sort_keys=True))
+            else:
+                bump("outgoing headers empty (trivial)")
+            low = [k.lower() for k, _ in first["headers"]]
+            if len(set(low)) < len(low):
+                bump("result has case-variant duplicate names")
+        if r[0] != r[1]:
+            bump("second request differs (plug-in state)")
+        bump("hmode=" + c["hmode"])
+        bump("auth=" + ("none" if c["auth"] is None else c["auth"]["t"]))
+        if c["auth"] is None and c["bearer"] is not None:
+            bump("bearer_token used")
+        if c["auth"] is not None and c["bearer"] is not None:
+            bump("bearer_token ignored (auth set)")
+        for k in plugin_kinds(c["auth"]):
+            bump("has " + k)
+        if c["params"] is not None:
+            bump("caller params")
+        if c["cookies"] is not None:
+            bump("caller cookies")
         for res, wl in zip(r, w):
             if wl is None:
                 continue
@@ -291,42 +383,370 @@ async def main() -> int:
                 wire_reqs.append({"f": "wireLookup", "a": [res["headers"], name]})
                 wire_expect.append((c, name, vals))
     # 2. wire view
-    for (c, name, vals), got in zip(wire_expect, drive(wire_reqs)):
+    for (c, name, vals), got in zip(wire_expect, drive(driver, wire_reqs)):
+        comparisons += 1
         if got != vals:
-            bad += 1
-            print("DISAGREE wire", json.dumps(c), name, "httpx", vals, "model", got)
+            disagree("wire lookup " + name, model_cfg(c), got, vals)
 
     # 3. plug-ins alone, request_args with / without each key
     pcases = []
-    for _ in range(max(600, N_RANDOM // 3)):
+    for _ in range(n_plugin):
         spec = rnd_plugin(rng)
         ra = {"headers": rng.choice([None, rnd_pairs(rng, NAMES)]),
               "params": rng.choice([None, rnd_pairs(rng, PNAMES + NAMES[:3], 3)]),
               "cookies": rng.choice([None, rnd_pairs(rng, PNAMES, 3)])}
         pcases.append((spec, ra))
     preal = [await run_plugin(s, ra) for s, ra in pcases]
-    pmodel = drive([{"f": "authenticate", "a": [s, ra]} for s, ra in pcases])
+    pmodel = drive(driver, [{"f": "authenticate", "a": [s, ra]} for s, ra in pcases])
     for (s, ra), r, m in zip(pcases, preal, pmodel):
+        comparisons += 1
         if r != m:
-            bad += 1
-            print("DISAGREE plugin", json.dumps(s), json.dumps(ra), "\n  real ", json.dumps(r), "\n  model",
-                  json.dumps(m))
+            disagree("plugin alone", [s, ra], m, r)
+    dist["transport configurations"] = len(cfgs)
+    dist["hand-picked"] = len(hand)
+    dist["all subsets/orders of the five kinds"] = len(orders)
+    dist["random"] = n_random
+    dist["wire lookups"] = len(wire_reqs)
+    dist["plug-in-alone calls"] = len(pcases)
 
-    # 4. the two documented defects reproduce on the real code
-    r, w = await run_real({"defaults": [["x-b", "d"]], "headers": [["X-B", "r"]], "hmode": "dict", "auth": None,
-                           "bearer": None, "params": None, "cookies": None}, n=1)
-    assert w[0]["x-b"] == ["d", "r"], w
-    for loc in ("query", "cookie"):
-        r, w = await run_real({"defaults": None, "headers": None, "hmode": "none",
-                               "auth": {"t": "apikey", "key": "SECRET", "location": loc, "name": "api_key"},
-                               "bearer": None, "params": None, "cookies": None}, n=1)
-        assert r[0] == {"headers": [], "params": None, "cookies": None}, r
+    picks = [cfgs[2], cfgs[len(hand) + len(orders) - 1]] + cfgs[len(hand) + len(orders):][:3]
+    samples = []
+    for c in picks:
+        i = cfgs.index(c)
+        samples.append({"request": model_cfg(c), "impl": real[i][0], "model": model[i]})
+    return {
+        "comparisons": comparisons,
+        "disagreements": disagreements,
+        "n_disagreements": n_dis,
+        "nontrivial": len(nontrivial_keys),
+        "rule": ("configurations = hand-picked edge cases + every subset and order of the five plug-in kinds in one "
+                 "composite + seeded random (defaults / per-request headers from a pool with case variants, "
+                 "headers=dict|None|absent, nested composites up to depth 3, API-key locations incl. invalid ones, "
+                 "OAuth2 refresh tables, with/without caller params/cookies); each is sent TWICE through one real "
+                 "transport and compared with the model (headers as ordered pairs, params/cookies/json kwargs, "
+                 "exception type+message), plus httpx's case-insensitive header view vs wireLookup, plus the plug-ins "
+                 "alone.  Non-trivial = distinct configuration whose first request was sent with a NON-EMPTY headers "
+                 "dict, i.e. defaults, per-request headers, auth or bearer_token actually changed the outgoing headers."),
+        "samples": samples,
+        "distribution": dist,
+    }
 
-    print(f"{len(cfgs)} transport configurations x 2 requests ({n_raise} raising, {n_second_differs} with a "
-          f"different second request), {len(wire_reqs)} wire lookups, {len(pcases)} plug-in calls")
-    print(f"{bad} disagreements")
-    return 1 if bad else 0
+
+def run(seed: int, scale: float, driver: str) -> dict:
+    with warnings.catch_warnings():
+        warnings.simplefilter("ignore")
+        return asyncio.run(_run(seed, scale, driver))
+
+
+# ---------------------------------------------------------------- oracle(): the property itself
+
+# Names/values for the oracle: never a header httpx sets itself, cookie/query-safe tokens.
+O_HEADERS = [("X-B", "x-b", "X-b"), ("X-Trace", "x-trace"), ("Accept-Language", "accept-language"),
+             ("Authorization", "authorization", "AUTHORIZATION"), ("X-API-Key", "x-api-key")]
+O_VALUES = ["a", "b", "d", "r", "v1", "tok-2", "k9"]
+O_TOKENS = ["a", "b", "c", "T0", ""]
+O_KEYNAMES = ["api_key", "X-Key", "sid2", "token"]
+O_PNAMES = ["q", "page", "sort"]
+O_CNAMES = ["sid", "theme"]
+
+EXPECTED_CLASSES = ["header-case-variant-not-overridden", "apikey-query-dropped", "apikey-cookie-dropped"]
+OTHER_CLASSES = ["header-last-writer-wrong", "apikey-header-missing", "apikey-bad-location-no-error",
+                 "passthrough-changed", "unexpected-exception"]
+
+
+def spec_refresh(spec: dict) -> str:
+    """Documented OAuth2 behaviour: use the refreshed token when the callback returns a new non-empty one."""
+    tok, r = spec["token"], spec["refresh"]
+    if r is None:
+        return tok
+    table = dict(map(tuple, r["map"]))
+    new = table[tok] if tok in table else (tok if r["default"] is None else r["default"])
+    return new if new and new != tok else tok
+
+
+def spec_effects(spec: dict | None, hdr: list, qry: list, ck: list) -> str | None:
+    """What the documentation says a plug-in adds, in composition order: header / query / cookie writes.
+    Returns the message of the first documented ValueError, else None."""
+    if spec is None:
+        return None
+    t = spec["t"]
+    if t == "bearer":
+        hdr.append(("Authorization", "Bearer " + spec["token"]))
+    elif t == "headers":
+        hdr.extend((k, v) for k, v in spec["headers"])
+    elif t == "oauth2":
+        hdr.append(("Authorization", "Bearer " + spec_refresh(spec)))
+    elif t == "apikey":
+        loc = spec["location"]
+        if loc == "header":
+            hdr.append((spec["name"], spec["key"]))
+        elif loc == "query":
+            qry.append((spec["name"], spec["key"]))
+        elif loc == "cookie":
+            ck.append((spec["name"], spec["key"]))
+        else:
+            return f"Invalid API key location: {loc}"
+    else:
+        for p in spec["plugins"]:
+            e = spec_effects(p, hdr, qry, ck)
+            if e is not None:
+                return e
+    return None
+
+
+def parse_cookie_header(values: list[str]) -> list[list[str]]:
+    out = []
+    for v in values:
+        for part in v.split(";"):
+            part = part.strip()
+            if part:
+                k, _, val = part.partition("=")
+                out.append([k, val])
+    return out
+
+
+async def evaluate(cfg: dict) -> tuple[int, list[dict]]:
+    """C17's statement on ONE configuration, on the request captured by httpx.MockTransport.
+    Returns (number of checks made, failures)."""
+    failures: list[dict] = []
+    checks = 0
+
+    def fail(cls, check, focus, observed, expected):
+        failures.append({"class": cls, "case": {"cfg": cfg, "check": check, "focus": focus},
+                         "observed": observed, "expected": expected})
+
+    body = {"payload": [1, "two"], "n": 3}
+    hdr: list = [tuple(p) for p in (cfg.get("defaults") or [])] + [tuple(p) for p in (cfg.get("headers") or [])]
+    qry: list = []
+    ck: list = []
+    if cfg.get("auth") is not None:
+        err = spec_effects(cfg["auth"], hdr, qry, ck)
+    else:
+        err = None
+        if cfg.get("bearer") is not None:
+            hdr.append(("Authorization", "Bearer " + cfg["bearer"]))
+    o = (await send(cfg, 1, body))[0]
+    if err is not None:
+        checks += 1
+        if "raises" not in o or o["msg"] != err or o["sent"]:
+            fail("apikey-bad-location-no-error", "bad-location", None,
+                 {k: v for k, v in o.items() if k in ("raises", "msg", "sent")} or "request sent",
+                 {"raises": "ValueError", "msg": err})
+        return checks, failures
+    if "raises" in o:
+        fail("unexpected-exception", "no-exception", None, {"raises": o["raises"], "msg": o["msg"]}, "request sent")
+        return 1, failures
+    req = o["request"]
+
+    # (1)+(2) headers: per header NAME (case-insensitive) exactly one line, the last writer's value, where the
+    # writers are defaults, then per-request headers, then each plug-in's contribution in composition order
+    by_name: dict[str, list] = {}
+    for k, v in hdr:
+        by_name.setdefault(k.lower(), []).append((k, v))
+    for low, writes in by_name.items():
+        checks += 1
+        observed = req.headers.get_list(low)
+        expected = [writes[-1][1]]
+        if observed != expected:
+            spellings = sorted({k for k, _ in writes})
+            cls = "header-case-variant-not-overridden" if len(spellings) > 1 else "header-last-writer-wrong"
+            if cls == "header-last-writer-wrong" and any(
+                    spec_is_header_apikey(cfg.get("auth"), low, writes[-1][1])) and writes[-1][1] not in observed:
+                cls = "apikey-header-missing"
+            fail(cls, "header", low, observed, expected)
+
+    # (3) API key in query / cookie: under the configured name in the configured location
+    url_q = [[k, v] for k, v in req.url.params.multi_items()]
+    cookies = parse_cookie_header(req.headers.get_list("cookie"))
+    for name, key in dict(qry).items():
+        checks += 1
+        got = [v for k, v in url_q if k == name]
+        if got != [key]:
+            fail("apikey-query-dropped", "apikey-query", name, {"url": str(req.url), "values": got}, [key])
+    for name, key in dict(ck).items():
+        checks += 1
+        got = [v for k, v in cookies if k == name]
+        if got != [key]:
+            fail("apikey-cookie-dropped", "apikey-cookie", name,
+                 {"cookie": req.headers.get_list("cookie"), "values": got}, [key])
+
+    # (4) passthrough: caller's params / cookies / body, both as keyword arguments and on the captured request
+    checks += 1
+    kw, kw_in = o["kw"], o["kw_in"]
+    problems = {}
+    for k in ("params", "cookies", "json"):
+        if (k in kw) != (k in kw_in) or (k in kw and (kw[k] is not kw_in[k] or kw[k] != kw_in[k])):
+            problems["kw:" + k] = [repr(kw.get(k)), repr(kw_in.get(k))]
+    extra = sorted(set(kw) - {"headers", "params", "cookies", "json"})
+    if extra:
+        problems["kw:extra"] = extra
+    if o["mutated"]:
+        problems["caller dicts mutated"] = True
+    overridden_q = set(dict(qry))
+    overridden_c = set(dict(ck))
+    for k, v in (cfg.get("params") or []):
+        if k not in overridden_q and [k, v] not in url_q:
+            problems["url param " + k] = [url_q, v]
+    stray = [p for p in url_q if p[0] not in overridden_q and p not in [list(x) for x in (cfg.get("params") or [])]]
+    if stray:
+        problems["url params added"] = stray
+    for k, v in (cfg.get("cookies") or []):
+        if k not in overridden_c and [k, v] not in cookies:
+            problems["cookie " + k] = [cookies, v]
+    try:
+        sent_body = json.loads(req.content)
+    except Exception as e:  # noqa: BLE001
+        sent_body = f"<{type(e).__name__}>"
+    if sent_body != body:
+        problems["body"] = [sent_body, body]
+    if problems:
+        fail("passthrough-changed", "passthrough", None, problems, "caller's params/cookies/body unchanged")
+    return checks, failures
+
+
+def spec_is_header_apikey(spec, low: str, value: str):
+    if spec is None:
+        return
+    if spec["t"] == "apikey" and spec["location"] == "header":
+        yield spec["name"].lower() == low and spec["key"] == value
+    for p in spec.get("plugins", []):
+        yield from spec_is_header_apikey(p, low, value)
+
+
+def o_pairs(rng: random.Random, groups, maxn: int, variants: bool) -> list[list[str]]:
+    out: list[list[str]] = []
+    for g in rng.sample(groups, rng.randint(0, min(maxn, len(groups)))):
+        out.append([rng.choice(g) if variants else g[0], rng.choice(O_VALUES)])
+    return out
+
+
+def o_plugin(rng: random.Random, variants: bool, depth: int = 0, badloc: bool = False) -> dict:
+    kinds = ["bearer", "headers", "apikey", "apikey", "oauth2", "composite"]
+    if depth >= 2:
+        kinds.remove("composite")
+    t = rng.choice(kinds)
+    if t == "bearer":
+        return {"t": t, "token": rng.choice(O_TOKENS)}
+    if t == "headers":
+        return {"t": t, "headers": o_pairs(rng, O_HEADERS, 3, variants)}
+    if t == "apikey":
+        locs = ["header", "query", "cookie"] + (["Header", "body"] if badloc else [])
+        return {"t": t, "key": rng.choice(O_VALUES), "location": rng.choice(locs), "name": rng.choice(O_KEYNAMES)}
+    if t == "oauth2":
+        refresh = None if rng.random() < 0.3 else {
+            "map": [[a, rng.choice(O_TOKENS)] for a in rng.sample(O_TOKENS, rng.randint(0, 3))],
+            "default": rng.choice([None, None, "", "z"])}
+        return {"t": t, "token": rng.choice(O_TOKENS), "refresh": refresh}
+    return {"t": "composite",
+            "plugins": [o_plugin(rng, variants, depth + 1, badloc) for _ in range(rng.randint(0, 4))]}
+
+
+def oracle_cases(seed: int, scale: float) -> list[dict]:
+    rng = random.Random(seed)
+    cs: list[dict] = []
+
+    def add(**kw):
+        c = {"defaults": None, "headers": None, "auth": None, "bearer": None, "params": None, "cookies": None}
+        c.update(kw)
+        c["hmode"] = "dict" if c["headers"] is not None else "none"
+        cs.append(c)
+
+    # hand-picked: the statement's clauses one by one
+    add(defaults=[["X-B", "d"]], headers=[["X-B", "r"]])
+    add(defaults=[["x-b", "d"]], headers=[["X-B", "r"]])
+    add(defaults=[["X-B", "d"]], headers=[["x-b", "r"]], auth={"t": "headers", "headers": [["X-b", "p"]]})
+    add(headers=[["authorization", "mine"]], auth={"t": "bearer", "token": "t"})
+    add(headers=[["Authorization", "mine"]], auth={"t": "bearer", "token": "t"})
+    add(headers=[["authorization", "mine"]], bearer="t")
+    add(bearer="t", auth={"t": "headers", "headers": [["X-B", "p"]]})
+    for loc in ("header", "query", "cookie", "Header"):
+        add(auth={"t": "apikey", "key": "SECRET", "location": loc, "name": "api_key"})
+        add(auth={"t": "apikey", "key": "SECRET", "location": loc, "name": "api_key"}, params=[["q", "1"]],
+            cookies=[["sid", "s"]], defaults=[["X-Trace", "1"]])
+        add(auth={"t": "composite", "plugins": [{"t": "bearer", "token": "b"},
+                                                {"t": "apikey", "key": "SECRET", "location": loc, "name": "X-Key"},
+                                                {"t": "headers", "headers": [["X-B", "h"]]}]},
+            params=[["page", "2"]])
+    reps = [{"t": "bearer", "token": "tok"}, {"t": "headers", "headers": [["X-B", "h"], ["Authorization", "H"]]},
+            {"t": "apikey", "key": "k9", "location": "header", "name": "X-B"},
+            {"t": "oauth2", "token": "a", "refresh": {"map": [["a", "b"]], "default": None}}]
+    for r in range(1, 5):
+        for combo in itertools.permutations(reps, r):
+            add(defaults=[["X-B", "d"], ["X-Trace", "1"]], headers=[["X-B", "r"]],
+                auth={"t": "composite", "plugins": list(combo)}, params=[["q", "1"]])
+    # random: half with one canonical spelling per header name (clean check of order), half with case variants
+    for i in range(int(round(1600 * scale))):
+        variants = i % 2 == 1
+        add(defaults=rng.choice([None, o_pairs(rng, O_HEADERS, 3, variants)]),
+            headers=rng.choice([None, o_pairs(rng, O_HEADERS, 3, variants), o_pairs(rng, O_HEADERS, 3, variants)]),
+            auth=rng.choice([None, o_plugin(rng, variants, 0, rng.random() < 0.15),
+                             o_plugin(rng, variants, 0, False), o_plugin(rng, variants, 0, False)]),
+            bearer=rng.choice([None, None, "bt", ""]),
+            params=rng.choice([None, [[k, rng.choice(O_VALUES)] for k in rng.sample(O_PNAMES, rng.randint(0, 2))]]),
+            cookies=rng.choice([None, None,
+                                [[k, rng.choice(O_VALUES)] for k in rng.sample(O_CNAMES, rng.randint(1, 2))]]))
+    return cs
+
+
+async def _oracle(seed: int, scale: float) -> dict:
+    evaluations = 0
+    failures: list[dict] = []
+    for cfg in oracle_cases(seed, scale):
+        n, fs = await evaluate(cfg)
+        evaluations += n
+        failures.extend(fs)
+    counts: dict[str, int] = {}
+    for f in failures:
+        counts[f["class"]] = counts.get(f["class"], 0) + 1
+    return {"evaluations": evaluations, "failures": failures, "classes": counts,
+            "expected_classes": EXPECTED_CLASSES}
+
+
+def oracle(seed: int, scale: float) -> dict:
+    with warnings.catch_warnings():
+        warnings.simplefilter("ignore")
+        return asyncio.run(_oracle(seed, scale))
+
+
+def replay(case) -> bool:
+    """Re-run one oracle case (`failure["case"]`, or a bare configuration); True iff it still violates C17."""
+    cfg = case.get("cfg", case)
+    with warnings.catch_warnings():
+        warnings.simplefilter("ignore")
+        _, fs = asyncio.run(evaluate(cfg))
+    if "check" not in case:
+        return bool(fs)
+    return any(f["case"]["check"] == case["check"] and f["case"]["focus"] == case.get("focus") for f in fs)
+
+
+# ---------------------------------------------------------------- command line
+
+def main(argv: list[str]) -> int:
+    scale = float(argv[1]) if len(argv) > 1 else 1.0
+    driver = argv[2] if len(argv) > 2 else DEFAULT_DRIVER
+    seed = 17
+    r = run(seed, scale, driver)
+    for d in r["disagreements"]:
+        print("DISAGREE", json.dumps(d))
+    print(f"{r['comparisons']} comparisons, {r['nontrivial']} non-trivial configurations; "
+          f"distribution {json.dumps(r['distribution'])}")
+    print(f"{r['n_disagreements']} disagreements")
+    o = oracle(seed, scale)
+    print(f"oracle: {o['evaluations']} evaluations, {len(o['failures'])} failures: {json.dumps(o['classes'])}")
+    seen = set()
+    ok_replay = True
+    for f in o["failures"]:
+        if f["class"] not in seen:
+            seen.add(f["class"])
+            again = replay(f["case"])
+            ok_replay &= again
+            print(f"  {f['class']}: e.g. {json.dumps(f['case']['cfg'])} focus={f['case']['focus']} "
+                  f"observed={json.dumps(f['observed'])} expected={json.dumps(f['expected'])} replay={again}")
+    unexpected = sorted(set(o["classes"]) - set(EXPECTED_CLASSES))
+    if unexpected:
+        print("UNEXPECTED oracle classes:", unexpected)
+    return 1 if (r["n_disagreements"] or unexpected or not ok_replay) else 0
 
 
 if __name__ == "__main__":
-    sys.exit(asyncio.run(main()))
+    sys.exit(main(sys.argv))
